@@ -519,6 +519,11 @@ def judge(r, props):
         r.status, r.detail = "broken", "unwinding assertion failed (bound too small): " + unwind_fail[0]["property"]
         return r
 
+    srcfail = [p for p in bad_other if "support::Src" in p.get("sourceLocation", {}).get("function", "")]
+    if srcfail:
+        r.status, r.detail = "broken", "harness draws more than NIN input words"
+        return r
+
     def is_panic(p):   # a Rust panic (overflow, index, unwrap, explicit panic!, glam assert), as opposed to a memory-safety check
         return ".assertion." in p["property"]
 
